@@ -110,7 +110,7 @@ def same_shape(a, values):
 
 
 def pres_choice(rng):
-    return {"wells": rng.choice(PRESENT), "vols": rng.choice(PRESENT), "num": rng.choice(["float", "int", "np", "float", "npint"]),
+    return {"wells": rng.choice(PRESENT), "vols": rng.choice(PRESENT), "num": rng.choice(["float", "int", "np", "float", "npint", "npuint"]),
             "dwells": rng.choice(PRESENT)}
 
 
